@@ -114,8 +114,7 @@ def check_program(arg: tuple[dict[str, Any], list, int, int]) -> list[dict]:
 
 
 def _members(r: int, role: str) -> set[int]:
-    return {'world': {0, 1, 2, 3}, 'row': {0, 1} if r in (0, 1) else {2, 3},
-            'col': {0, 2} if r in (0, 2) else {1, 3}, 'self': {r}}[role]
+    return bucket.members(r, role)
 
 
 def _single(w: dict, d: dict, types: list, r: int) -> bool:
@@ -169,6 +168,13 @@ def main(tier: str, seed: int) -> int:
                  max_calls=3),
             dict(cap=440, types=[T[2], T[4]], roles=['world', 'row'],
                  max_calls=3),
+            # several handles over the same ranks (None and an explicit
+            # all-ranks group; two new_group results for one row)
+            dict(cap=700, types=[T[0], T[2]], roles=['world', 'worldx'],
+                 max_calls=4),
+            dict(cap=1000, types=small_types,
+                 roles=['world', 'worldx', 'row', 'rowx'], max_calls=6,
+                 simulate=60, insts=('both', 'first')),
         ]
     else:
         scopes = [
@@ -192,6 +198,13 @@ def main(tier: str, seed: int) -> int:
             dict(cap=c, types=[T[2], T[3], T[4]], roles=['world', 'row'],
                  max_calls=3)
             for c in (439, 440, 619, 620, 2175, 2176, 1307, 1308)
+        ] + [
+            dict(cap=c, types=small_types, roles=['world', 'worldx', 'rowx'],
+                 max_calls=4) for c in (700, 2500)
+        ] + [
+            dict(cap=1000, types=T,
+                 roles=['world', 'worldx', 'row', 'rowx', 'col'], max_calls=7,
+                 simulate=600, insts=('both', 'first', 'second')),
         ]
     with ThreadPoolExecutor(max_workers=3) as ex:
         runs = list(ex.map(
